@@ -3,8 +3,11 @@
 // in-memory pipe against a compression-aware scripted node (node.go). Free choices (all explored):
 // what the node advertises in SUPPORTED, the compressor the client is configured with, and how
 // the node encodes its replies after STARTUP (plain / compressed with snappy or lz4 / compressed
-// and cut short / garbage with the compression flag). Then one simple QUERY and one prepared
-// statement (PREPARE + EXECUTE). The oracle reads the node's request log.
+// and cut short / garbage with the compression flag), and whether the node demands authentication
+// (STARTUP answered by READY / by AUTHENTICATE then AUTH_SUCCESS / by AUTHENTICATE, AUTH_CHALLENGE,
+// AUTH_SUCCESS), so that every way out of the STARTUP exchange is crossed with every (advertised,
+// configured) pair. Then one simple QUERY and one prepared statement (PREPARE + EXECUTE). The oracle
+// reads the node's request log.
 package main
 
 import (
@@ -61,6 +64,34 @@ var modes = []struct {
 	{"garbage-with-flag", "snappy", 2},
 }
 
+// how the node ends the STARTUP exchange
+var authModes = []struct {
+	name       string
+	demand     bool // STARTUP is answered by AUTHENTICATE instead of READY
+	challenges int  // AUTH_CHALLENGE frames before AUTH_SUCCESS
+}{
+	{"ready", false, 0},
+	{"authenticate-success", true, 0},
+	{"authenticate-challenge-success", true, 1},
+}
+
+const authClass = "org.apache.cassandra.auth.PasswordAuthenticator"
+
+// stepAuth is the client's authenticator: it answers the AUTHENTICATE and every AUTH_CHALLENGE with a
+// token that names the step (padded so that the body compresses) and always continues the exchange.
+// It keeps no state outside its own value.
+type stepAuth struct{ step int }
+
+func authToken(step int) []byte {
+	return []byte(fmt.Sprintf("\x00c18-user\x00c18-password-step-%d-", step) + strings.Repeat("padding ", 10))
+}
+
+func (a stepAuth) Challenge(req []byte) ([]byte, gocql.Authenticator, error) {
+	return authToken(a.step), stepAuth{a.step + 1}, nil
+}
+
+func (a stepAuth) Success(data []byte) error { return nil }
+
 const (
 	stmtSimple   = "QUERYX 'c18-simple' /* padding padding padding padding padding padding padding padding padding padding */"
 	stmtPrepared = "SELECT v FROM ks.t WHERE k = ? /* padding padding padding padding padding padding padding padding */"
@@ -98,6 +129,7 @@ func body() {
 	adv := advSets[vs.Choose(len(advSets), vs.Free)]
 	cc := clientComp[vs.Choose(len(clientComp), vs.Free)]
 	mode := modes[vs.Choose(len(modes), vs.Free)]
+	am := authModes[vs.Choose(len(authModes), vs.Free)]
 
 	var wlog []vnet.WriteRec
 	client, server := vnet.Pipe("c0", &net.TCPAddr{IP: net.IPv4(10, 0, 0, 9), Port: 40000}, &net.TCPAddr{IP: net.IPv4(10, 0, 0, 1), Port: 9042})
@@ -115,7 +147,24 @@ func body() {
 			}
 			msg, post = &frame.Supported{Options: opts}, false
 		case *frame.Startup:
+			// the answers that belong to the STARTUP exchange (READY / AUTHENTICATE / AUTH_CHALLENGE / AUTH_SUCCESS) are
+			// sent plain: the reply modes are about responses on the established connection
 			msg, post = frame.Ready{}, false
+			if am.demand {
+				msg = &frame.Authenticate{Class: authClass}
+			}
+		case *frame.AuthResponse:
+			post = false
+			n.authResponses = append(n.authResponses, append([]byte(nil), m.Token...))
+			switch {
+			case !am.demand:
+				msg = &frame.Error{Code: 0x000A, Message: "unexpected AUTH_RESPONSE"}
+			case len(n.authResponses) <= am.challenges:
+				msg = &frame.AuthChallenge{Token: []byte("c18-challenge")}
+			default:
+				n.authDone = true
+				msg = &frame.AuthSuccess{Token: nil}
+			}
 		case *frame.Query:
 			msg = rowsFor("simple")
 			_ = m
@@ -156,6 +205,7 @@ func body() {
 	cluster.ConnectTimeout = 100 * time.Millisecond
 	cluster.WriteCoalesceWaitTime = 0
 	cluster.Compressor = cc.c
+	cluster.Authenticator = stepAuth{0}
 	live, derr := gocql.VerifDial(client, *cluster, true)
 
 	var results []opResult
@@ -183,7 +233,7 @@ func body() {
 
 	// ---------------------------------------------------------------- oracle
 	pDev, dDev, _ := vs.Deviations()
-	desc := fmt.Sprintf("SUPPORTED COMPRESSION %s, client compressor %q, replies %s", adv.name, cc.name, mode.name)
+	desc := fmt.Sprintf("SUPPORTED COMPRESSION %s, client compressor %q, replies %s, STARTUP exchange %s", adv.name, cc.name, mode.name, am.name)
 	expect := ""
 	if cc.c != nil && contains(adv.list, cc.name) {
 		expect = cc.name
@@ -229,6 +279,14 @@ func body() {
 	} else if derr == nil {
 		vs.Failf("c18:handshake:no-STARTUP", "handshake succeeded but the node saw no STARTUP [%s]", desc)
 	}
+	if derr == nil && am.demand && !node.authDone {
+		vs.Failf("c18:handshake:connection-returned-before-AUTH_SUCCESS", "handshake succeeded although the node demanded authentication and never sent AUTH_SUCCESS [%s]", desc)
+	}
+	for i, tok := range node.authResponses {
+		if string(tok) != string(authToken(i)) {
+			vs.Failf("c18:wire:decoded-request-differs", "AUTH_RESPONSE %d decoded by the peer as token %q, the authenticator returned %q [%s]", i, tok, authToken(i), desc)
+		}
+	}
 	sawStmt := map[string]bool{}
 	for i, r := range node.log {
 		if !r.afterStart {
@@ -240,7 +298,8 @@ func body() {
 				vs.Failf("c18:wire:compressed-request-without-negotiation", "request %d (%s) carries the compression flag although STARTUP negotiated nothing [%s]", i, op, desc)
 			}
 		} else {
-			if !r.compressed && len(r.rawBody) > 0 {
+			// AUTH_RESPONSE still belongs to the STARTUP exchange: plain is accepted there (flagged must decode, below)
+			if !r.compressed && len(r.rawBody) > 0 && r.h.Op != frame.OpAuthResponse {
 				vs.Failf("c18:wire:uncompressed-request-after-negotiation", "request %d (%s, %d body bytes) lacks the compression flag although %q was negotiated [%s]", i, op, len(r.rawBody), node.negotiated, desc)
 			}
 			if r.compressed && (r.inflateErr != nil || r.decodeErr != nil) {
@@ -295,13 +354,13 @@ func body() {
 			}
 		}
 	}
-	vs.Observe("adv=%s client=%s mode=%s negotiated=%q dial=%v %s", adv.name, cc.name, mode.name, node.negotiated, derr == nil, strings.Join(sig, " "))
+	vs.Observe("adv=%s client=%s mode=%s auth=%s negotiated=%q dial=%v authResponses=%d %s", adv.name, cc.name, mode.name, am.name, node.negotiated, derr == nil, len(node.authResponses), strings.Join(sig, " "))
 	if debug {
 		var errs []string
 		for _, r := range results {
 			errs = append(errs, fmt.Sprint(r.err))
 		}
-		fmt.Fprintf(os.Stderr, "DEBUG adv=%s client=%s mode=%s negotiated=%q dial=%v %s errs=%q reqs=%d\n", adv.name, cc.name, mode.name, node.negotiated, derr, strings.Join(sig, " "), errs, len(node.log))
+		fmt.Fprintf(os.Stderr, "DEBUG adv=%s client=%s mode=%s auth=%s negotiated=%q dial=%v %s errs=%q reqs=%d\n", adv.name, cc.name, mode.name, am.name, node.negotiated, derr, strings.Join(sig, " "), errs, len(node.log))
 	}
 }
 
@@ -311,7 +370,7 @@ func main() {
 		return &vs.Scenario{Name: "negotiation-handshake-query-prepared", Cfg: vs.Config{MaxSteps: 30000, Horizon: 700 * time.Millisecond, DelayBounded: true}, Body: body}
 	}}}
 	mcreport.Main("C18", "exploration",
-		"controlled-scheduler part (negotiation on a real connection): free choices, all explored: SUPPORTED COMPRESSION {absent,[snappy],[lz4],[lz4,snappy],[deflate]} x client compressor {none,snappy,lz4} x node reply encoding after STARTUP {plain, compressed, compressed and cut to half, 12 garbage bytes with the flag; compressed = with the negotiated compressor, else snappy / lz4 as two alternatives} = 90 configurations, each through the real handshake (VerifDial), one QUERY and one PREPARE+EXECUTE on the instrumented Conn; schedules/timers delay-bounded (every execution departing at most T times from the default schedule). Oracle from the node's request log (requests inflated by the peer's own snappy / Cassandra-lz4 decoders and decoded by the reference request decoder): STARTUP carries COMPRESSION=<name> iff configured and advertised; OPTIONS/STARTUP never flagged; after negotiation every request with a body is flagged and decodes, without negotiation none is flagged; plain and correctly compressed replies are delivered as rows; a flagged reply on a connection without negotiated compressor, and a body the negotiated decoder rejects, give the caller an error; no panic on any thread",
+		"controlled-scheduler part (negotiation on a real connection): free choices, all explored: SUPPORTED COMPRESSION {absent,[snappy],[lz4],[lz4,snappy],[deflate]} x client compressor {none,snappy,lz4} x node reply encoding after STARTUP {plain, compressed, compressed and cut to half, 12 garbage bytes with the flag; compressed = with the negotiated compressor, else snappy / lz4 as two alternatives} x how the node ends the STARTUP exchange {READY; AUTHENTICATE, AUTH_SUCCESS; AUTHENTICATE, AUTH_CHALLENGE, AUTH_SUCCESS - the client has an authenticator that answers every step} = 270 configurations, each through the real handshake (VerifDial), one QUERY and one PREPARE+EXECUTE on the instrumented Conn; schedules/timers delay-bounded (every execution departing at most T times from the default schedule). Oracle from the node's request log (requests inflated by the peer's own snappy / Cassandra-lz4 decoders and decoded by the reference request decoder): STARTUP carries COMPRESSION=<name> iff configured and advertised; OPTIONS/STARTUP never flagged; after negotiation every request with a body (AUTH_RESPONSE excepted: plain or flagged) is flagged and decodes to what the caller / authenticator gave, without negotiation none - AUTH_RESPONSE included - is flagged; a connection is returned only after AUTH_SUCCESS when authentication was demanded; plain and correctly compressed replies are delivered as rows; a flagged reply on a connection without negotiated compressor, and a body the negotiated decoder rejects, give the caller an error; no panic on any thread",
 		[]string{"protocol v4, one connection, request/connect timeout 100ms, no write coalescing, horizon 700ms (before the first heartbeat)",
 			"stream-allocator atomics are not scheduling points (C08); outcomes of replies are demanded only in executions without an early timer"},
 		defs, 45*time.Second, 8*time.Minute, nil)
